@@ -210,6 +210,19 @@ def sp_jtree(I, args, kw):
     return _build(I, hint, shape, "", maxwords)
 
 
+def sp_jtree_oneof(I, args, kw):
+    """jtree_oneof(hint, 'shape1|shape2|...', maxwords=2): a fresh symbolic JSON object whose shape is one of the
+    listed alternatives; the choice is a fork of the path (the first path explored takes the first shape)"""
+    hint = const_of(args[0])
+    alts = [a for a in const_of(args[1]).split("|") if a.strip()]
+    rest = list(args[2:])
+    for i, a in enumerate(alts[:-1]):
+        pick = I.path.fresh("%s_shape%d" % (hint, i), z3.BoolSort())
+        if I.path.branch(pick):
+            return sp_jtree(I, [args[0], VStr(a)] + rest, kw)
+    return sp_jtree(I, [args[0], VStr(alts[-1])] + rest, kw)
+
+
 def all_keys(v, out=None):
     out = [] if out is None else out
     if isinstance(v, VJDict):
@@ -228,7 +241,36 @@ def sp_jkeys_nonempty(I, args, kw):
     return VBool(z3.And([w_truth(k) for k in all_keys(args[0]) if isinstance(k, VWStr)] + [z3.BoolVal(True)]))
 
 
-SPEC_FUNCS = {"jtree": sp_jtree, "jkeys_dotfree": sp_jkeys_dotfree, "jkeys_nonempty": sp_jkeys_nonempty}
+def sp_jkey(I, args, kw):
+    """jkey(hint, maxwords=2): a fresh symbolic string with at most maxwords-1 separators"""
+    return fresh_key(I, const_of(args[0]), const_of(args[1]) if len(args) > 1 else 2)
+
+
+def _walk_path(I, d, path):
+    """follow the '.'-separated words of `path` through nested objects (case split on the matching entries)"""
+    cur = d
+    for w in path.words:
+        if not isinstance(cur, VJDict):
+            return None
+        idx = find(I, cur, VWStr([w]))
+        if idx is None:
+            return None
+        cur = cur.slots[idx][1]
+    return cur
+
+
+def sp_jpath_get(I, args, kw):
+    """jpath_get(d, path): the value reached by following path.split('.') from d (undefined when not resolvable)"""
+    r = _walk_path(I, args[0], args[1])
+    return VUndef() if r is None else r
+
+
+def sp_jpath_has(I, args, kw):
+    return VBool(_walk_path(I, args[0], args[1]) is not None)
+
+
+SPEC_FUNCS = {"jkey": sp_jkey, "jpath_get": sp_jpath_get, "jpath_has": sp_jpath_has,
+              "jtree": sp_jtree, "jtree_oneof": sp_jtree_oneof, "jkeys_dotfree": sp_jkeys_dotfree, "jkeys_nonempty": sp_jkeys_nonempty}
 
 
 # ------------------------------------------------------------------ dict primitives (exec mode forks)
